@@ -22,10 +22,19 @@
     op iohelper.TwoSections    args [init, off1, n1, off2, n2, [[w,call],...], [wresp,...]]
        NewSectionWriter(memfile, off1, n1) and NewSectionWriter(memfile, off2, n2) over the same file,
        the calls interleaved (w = 0: the first writer, 1: the second).
-       observation: [[per call as above ...], file content afterwards] *)
+       observation: [[per call as above ...], file content afterwards]
+    op pbcmpl.File             args [init, kind, [[off, [hasver, ver, payload]], ...]]
+       for every placement in turn pbcmpl.Marshal(iohelper.AtToWriter(memfile, off), msg); then for every
+       placement pbcmpl.Unmarshal(iohelper.AtToReader(memfile, off), blank message)  (kind: body codec of C06)
+       and finally repeated Unmarshal through ONE AtToReader(memfile, smallest off) until the first error or
+       (number of placements + 1) frames.
+       observation: [[[n, error class] ...], file content, [[n, version, error class, payload] ...], [stream steps likewise]]
+       (error classes of C06: 0 nil, 1 io.EOF, 2 io.ErrUnexpectedEOF, 3/4 invalid header/body size, 6 decode)
+       Domain: 0 <= off, every frame ends below 2^20; kind 1 (BytesValue): the frames do not overlap. *)
 From Coq Require Import ZArith List Bool String.
 From Low Require Import Lib.MachInt Lib.BitSeq Lib.Val Model.SectionWriter Spec.SectionWriterSpec
-  Model.MemFile Model.SectionReader Spec.SectionReaderSpec Model.SectionPair Spec.SectionPairSpec.
+  Model.MemFile Model.SectionReader Spec.SectionReaderSpec Model.SectionPair Spec.SectionPairSpec
+  Model.Pbcmpl Spec.PbcmplSpec Model.PbcmplFile Spec.PbcmplFileSpec Run.PbcmplOps.
 Import ListNotations.
 Open Scope string_scope.
 Open Scope Z_scope.
@@ -129,6 +138,33 @@ Definition to_acall (c : call) : acall :=
   | CSize => ASize
   end.
 
+Definition dec_placement (v : val) : option placement :=
+  match v with
+  | VL [VZ off; m] => match as_msg m with Some m => Some (off, m) | None => None end
+  | _ => None
+  end.
+
+Definition placement_in_domain (kind : Z) (p : placement) : bool :=
+  (0 <=? fst p) && (fst p + 32 + zlen (k_enc kind (snd (snd p))) <=? file_limit).
+
+(** kind 1 (wrappers.BytesValue): the modelled decoder covers intact bodies only, so the frames
+    must not overlap *)
+Fixpoint placements_disjoint (kind : Z) (ps : list placement) : bool :=
+  match ps with
+  | [] => true
+  | p :: t =>
+      forallb (fun q =>
+        let pe := fst p + 32 + zlen (k_enc kind (snd (snd p))) in
+        let qe := fst q + 32 + zlen (k_enc kind (snd (snd q))) in
+        (pe <=? fst q) || (qe <=? fst p)) t && placements_disjoint kind t
+  end.
+
+Definition min_off (ps : list placement) : Z := fold_right (fun p m => Z.min (fst p) m) file_limit ps.
+
+Definition enc_mres (r : Z * option perr) : val := VL [VZ (fst r); v_err (snd r)].
+Definition enc_ures (r : Z * list Z * option perr * list Z) : val :=
+  let '(n, ver, err, p) := r in VL [VZ n; vzs ver; v_err err; vzs p].
+
 Definition to_wacall (wc : wcall) : Z * acall := (fst wc, to_acall (snd wc)).
 
 Definition ops_C18 : list opdef := [
@@ -224,6 +260,40 @@ Definition ops_C18 : list opdef := [
            | Some init, Some (wcs, wsc) =>
                let aouts := spec_two_sections o1 n1 o2 n2 wsc (map to_wacall wcs) in
                VL [VL (map enc_aout aouts); vzs (spec_file_after init aouts)]
+           | _, _ => VBad end
+       | _ => VBad end) |};
+  {| op_name := "pbcmpl.File";
+     op_run := fun a => match a with
+       | [init; VZ kind; VL ps] =>
+           match as_zs init, opt_all (map dec_placement ps) with
+           | Some init, Some ps =>
+               if is_bytes init && (zlen init <=? file_limit) && kind_ok kind &&
+                  forallb (placement_in_domain kind) ps &&
+                  (negb (kind =? 1) || placements_disjoint kind ps)
+               then
+                 match marshal_all kind init ps with
+                 | None => VPanic
+                 | Some (rs, f) =>
+                     match unmarshal_all kind f (map fst ps), StreamAt kind f (min_off ps) (S (List.length ps)) with
+                     | Some us, Some st =>
+                         VL [VL (map enc_mres rs); vzs f; VL (map enc_ures us); VL (map enc_ures st)]
+                     | _, _ => VPanic
+                     end
+                 end
+               else VBad
+           | _, _ => VBad end
+       | _ => VBad end;
+     op_spec := fun_spec (fun a => match a with
+       | [init; VZ kind; VL ps] =>
+           match as_zs init, opt_all (map dec_placement ps) with
+           | Some init, Some ps =>
+               match spec_marshal_all kind init ps with
+               | None => VPanic
+               | Some (rs, f) =>
+                   VL [VL (map enc_mres rs); vzs f;
+                       VL (map (fun p => enc_ures (spec_unmarshal_at kind f (fst p))) ps);
+                       VL (map enc_ures (spec_stream_at kind f (min_off ps) (S (List.length ps))))]
+               end
            | _, _ => VBad end
        | _ => VBad end) |}
 ].
